@@ -149,6 +149,19 @@ func init() {
 		Weight int
 	}{"longtable", 3})
 
+	// tickrace: see genTickRace
+	kinds["tickrace"] = &kindFn{gen: genTickRace, run: runCore}
+	propKinds["C06"] = append(propKinds["C06"], struct {
+		Kind   string
+		Weight int
+	}{"tickrace", 2})
+	for _, pp := range []string{"C04", "C05"} {
+		propKinds[pp] = append(propKinds[pp], struct {
+			Kind   string
+			Weight int
+		}{"tickrace", 1})
+	}
+
 	// longholes: see genLongHoles
 	kinds["longholes"] = &kindFn{gen: genLongHoles, run: runCore}
 	propKinds["C06"] = append(propKinds["C06"], struct {
